@@ -169,6 +169,12 @@ def run(out, tier, seed):
         d['prms'] = {} if i % 4 else {'LAYERING_PRMS': {'gmm_kwargs': {'scores': 'AIC'}}}
         d['light'] = True
         descs.append(d)
+    # "the documented input format, including the anomalies documented as warnings only": dtypes that are coerced with a warning,
+    # columns of the caller's own, permuted columns
+    from .. import pairs as _pairs
+    for i, d in enumerate(descs):
+        if i % 4 == 0 and 'layout' not in d:
+            d['layout'] = _pairs.LAYOUTS[(i // 4) % len(_pairs.LAYOUTS)]
     descs += ref_scenes()
     cfg = mcconf.chunk_cfg([], prmset='PrmMsaQ').replace('SPECIFICATION Spec\n', chunkprops.EXPORT_SPEC)
     f1, f1total = scenes.model_frames(cfg, 'PrmMsaQ', tier, seed, 300 if tier == 'quick' else 8000)
